@@ -3,6 +3,8 @@ package h
 import (
 	"encoding/json"
 	"fmt"
+	"strconv"
+	"strings"
 	"time"
 )
 
@@ -30,6 +32,12 @@ func RunCheck(prop, tier string, procs int, budget time.Duration) int {
 			RunKVBFS(rep, pool, Config{Witness: true, TwoHandles: true, MaxDocSize: 300}, 4, 1, deadline)
 			RunKVBFS(rep, pool, Config{Disk: true, Witness: true, TwoHandles: true, MaxDocSize: 300}, 3, 1, deadline)
 		}
+	case strings.HasPrefix(prop, "sched:"):
+		// developer entry: sched:<scenario>:<bound>
+		parts := strings.Split(prop, ":")
+		b, _ := strconv.Atoi(parts[2])
+		rep.Prop = "ALL"
+		RunSched(rep, pool, parts[1], b, deadline)
 	default:
 		fmt.Printf("no check registered for %s\n", prop)
 		return 2
